@@ -151,6 +151,26 @@ def case_digest(o, c, sp, rnd):
     elif g[0] != 'CKR_OK': c.V('C_DigestUpdate', sp['mech'] + chunkclass(parts), 'multipart-failed:' + g[0], 'multi-part digest failed at %s' % g[2], parts=[len(p) for p in parts])
     else: c.ok()
 
+def case_digestkey(o, c, sp, rnd):
+    """C_DigestKey: the digest of prefix | key value | suffix, for a key stored in each of the four placements (session / token) x (public / private: the value is then stored encrypted)"""
+    x = o.x; ck = o.t.ck; val = rb(rnd, sp['klen']); pre = rb(rnd, sp['pre']); suf = rb(rnd, sp['suf']); want = hashlib.new(sp['h'], pre + val + suf).digest()
+    kt = ck.CKK_AES if sp['ktype'] == 'aes' else ck.CKK_GENERIC_SECRET
+    h = o.t.create({'CKA_CLASS': ck.CKO_SECRET_KEY, 'CKA_KEY_TYPE': kt, 'CKA_VALUE': val, 'CKA_SENSITIVE': False, 'CKA_EXTRACTABLE': True, 'CKA_LABEL': b'digest-key'}, token=sp['token'], private=sp['private'])
+    try:
+        ws = o.t.ws; cls = f"{sp['mech']},key={'token' if sp['token'] else 'session'}/{'private' if sp['private'] else 'public'}"
+        r = x.call('C_DigestInit', s=ws, mech=x.M(sp['mech']))
+        if r['rv'] != 0: c.refused = r['rvname']; return
+        for fn, kw in (('C_DigestUpdate', dict(data=pre.hex())), ('C_DigestKey', dict(key=h)), ('C_DigestUpdate', dict(data=suf.hex()))):
+            r = x.call(fn, s=ws, **kw)
+            if r['rv'] != 0:
+                o.t.fresh_ws(); c.V(fn, cls, 'failed:' + r['rvname'], f'{fn} failed inside a digest of prefix | key | suffix (a readable, non-sensitive key)', klen=sp['klen']); return
+        r = x.call('C_DigestFinal', s=ws, buf=80)
+        if r['rv'] != 0: o.t.fresh_ws(); c.V('C_DigestFinal', cls, 'failed:' + r['rvname'], 'C_DigestFinal failed after C_DigestKey'); return
+        got = bytes.fromhex(r['out']['data'])
+        if got != want: c.V('C_DigestKey', cls, 'digest-differs-from-reference', 'the digest of prefix | key value | suffix computed through C_DigestKey differs from the reference digest over the same bytes', klen=sp['klen'], got=got, want=want)
+        else: c.ok()
+    finally: o.t.destroy(h)
+
 def mac_like(o, c, sp, rnd, mech, mname, hsign, hverify, data, want, deterministic=True, ref_verify=None, ref_sign=None, multi=True, tamper_bits=None):
     """common shape of MACs and signatures.  want: reference signature (deterministic schemes) or None;
     ref_verify(sig)->bool for randomised schemes; ref_sign()->a reference-made signature the token must accept."""
@@ -360,11 +380,12 @@ def case_derive(o, c, sp, rnd):
     elif g[1] != want: c.V('C_DeriveKey', cls, 'differs-from-reference', 'the derived shared secret differs from the independent implementation', got=g[1], want=want)
     else: c.ok()
 
-RUN = {'digest': case_digest, 'mac': case_mac, 'cipher': case_cipher, 'rsa_sign': case_rsa_sign, 'rsa_enc': case_rsa_enc, 'dsa': case_dsa, 'ecdsa': case_ecdsa, 'eddsa': case_eddsa, 'derive': case_derive}
+RUN = {'digest': case_digest, 'digestkey': case_digestkey, 'mac': case_mac, 'cipher': case_cipher, 'rsa_sign': case_rsa_sign, 'rsa_enc': case_rsa_enc, 'dsa': case_dsa, 'ecdsa': case_ecdsa, 'eddsa': case_eddsa, 'derive': case_derive}
 
 def distinct_key(sp):
     f = sp['fam']
     if f == 'digest': return (f, sp['mech'], lenclass(sp['mlen'], hashlib.new(sp['h']).block_size))
+    if f == 'digestkey': return (f, sp['mech'], sp['ktype'], sp['klen'], sp['token'], sp['private'])
     if f == 'mac': return (f, sp['mech'], sp['klen'], lenclass(sp['mlen'], 64 if sp['kind'] == 'hmac' else (16 if sp['ktype'] == 'aes' else 8)))
     if f == 'cipher':
         bs = 16 if sp['alg'] == 'aes' else 8; extra = ()
@@ -426,6 +447,12 @@ def specs(ctx, rnd, thorough):
         L = sorted({0, 1, B - pad - 1, B - pad, B - pad + 1, B - 1, B, B + 1, 2 * B - pad, 2 * B - pad + 1, 2 * B - 1, 2 * B, 2 * B + 1, 3 * B, 4 * B - 1, 4 * B, 4 * B + 1} | set(big))
         for l in L:
             for _ in range(2 if q else 3): add(fam='digest', mech=m, h=h, mlen=l)
+    # C_DigestKey: every placement of the key (the stored value of a private object is encrypted, of a public one it is not -- on the token or in a session)
+    for h, m in HASHES.items():
+        for token in (False, True):
+            for private in (False, True):
+                for ktype, klen in (('generic', 20), ('aes', 32)) if q else (('generic', 1), ('generic', 20), ('generic', 64), ('aes', 16), ('aes', 32)):
+                    add(fam='digestkey', mech=m, h=h, ktype=ktype, klen=klen, token=token, private=private, pre=rnd.choice([0, 5, 64]), suf=rnd.choice([0, 3, 70]))
     # HMAC: key lengths around the digest size (the token's minimum) and the block size
     for h, m in HMACS.items():
         B = hashlib.new(h).block_size; D = R.HASHLEN[h]
